@@ -2,7 +2,9 @@ package main
 
 import (
 	"fmt"
+	"strconv"
 	"strings"
+	"time"
 
 	"github.com/lugu/qiloop/meta/signature"
 )
@@ -34,8 +36,49 @@ func execSigParse(a []string) string {
 	return fmt.Sprintf("ok sig=%s idl=%s go=%s", hx([]byte(t.Signature())), t.SignatureIDL(), goT)
 }
 
+// sigDeepText builds the text of sig.deep: <shape> nested <n> times
+//   list  [[[…i…]]]     map  {i{i{i…i…}}}     open  [[[[…  (nothing closes)     shut  ]]]]…[[[[…i…]]]]
+func sigDeepText(shape string, n int) string {
+	switch shape {
+	case "list":
+		return strings.Repeat("[", n) + "i" + strings.Repeat("]", n)
+	case "map":
+		return strings.Repeat("{i", n) + "i" + strings.Repeat("}", n)
+	case "open":
+		return strings.Repeat("[", n)
+	case "shut":
+		return strings.Repeat("]", n) + strings.Repeat("[", n) + "i" + strings.Repeat("]", n)
+	}
+	return ""
+}
+
+// sig.deep <shape> <n>: a text too long for the line protocol, built on both sides; in a process of
+// its own: an error or a type, whatever the depth
+func childSigDeep(a []string) string {
+	n, _ := strconv.Atoi(a[1])
+	t, err := signature.Parse(sigDeepText(a[0], n))
+	if err != nil {
+		return "err"
+	}
+	if t.Signature() != sigDeepText(a[0], n) {
+		return "ok-other-signature"
+	}
+	return "ok"
+}
+
 func init() {
 	executors["sig.parse"] = execSigParse
+	children["sig.deep"] = childSigDeep
+	executors["sig.deep"] = func(a []string) string {
+		out := runChild("sig.deep", strings.Join(a, " "), 300*time.Second, 0)
+		if out.Result != "ok" && out.Result != "err" {
+			lastFailDetail = out.Stderr
+		}
+		if out.Result == "crash-noresult" {
+			return "crash"
+		}
+		return out.Result
+	}
 	runners["C09"] = runC09
 }
 
@@ -198,6 +241,21 @@ func runC09(r *Rand, tier string, o *Out) {
 			}
 			res := o.Do("P", "sig.parse "+hx(b), true)
 			checkFixedPoint(o, string(b), res)
+		}
+	}
+	// depth: at the bound the parser sets itself, around it, and far beyond (megabytes of brackets:
+	// what a message may carry)
+	deep := [][2]string{{"list", "999"}, {"list", "1000"}, {"list", "1001"}, {"map", "1000"}, {"map", "1001"}, {"shut", "1000"}, {"shut", "1001"},
+		{"list", "1500000"}, {"map", "1500000"}, {"open", "3000000"}}
+	if tier == "thorough" {
+		deep = append(deep, [][2]string{{"list", "4000000"}, {"map", "2500000"}, {"open", "9000000"}, {"shut", "2000000"}, {"list", "20000"}}...)
+	}
+	for _, d := range deep {
+		line := "sig.deep " + d[0] + " " + d[1]
+		out := o.Do("P", line, true)
+		o.Count("case:depth-" + d[0])
+		if out != "ok" && out != "err" {
+			o.Fail("signature parser does not return on deep nesting: "+out, line+" => "+out+" "+crashReason(lastFailDetail))
 		}
 	}
 	if tier == "thorough" {
